@@ -4,19 +4,19 @@ import json
 
 CLAIMS = {
  "C15": dict(cat="model_checking", design="6 C15",
-  text="All operation histories of length <=3 (quick) / <=4 (thorough) over 14 load/run/cancel operations are executed on the real code built with a sync.Pool shim in which the answer of EVERY pool Get (parser, task, point, metadata pools) is an explorer choice: the default LIFO reuse, then every deviation (any other pooled object or a fresh one) at every Get, up to 2 deviations per history — 1.6 million executions in the quick tier. The last operation's outcome must equal the outcome of the same operation executed first with empty pools; loaded scripts are shared across all histories.",
+  text="All operation histories of length <=3 (quick) / <=4 (thorough) over 33 load/run/cancel operations (incl. a script loaded by one operation, held and run by a later one) are executed on the real code built with a sync.Pool shim in which the answer of EVERY pool Get (parser, task, point, metadata pools) is an explorer choice: the default LIFO reuse, then every deviation (any other pooled object or a fresh one) at every Get, up to 2 deviations per history — about 2 million executions in the quick tier. The last operation's outcome must equal the outcome of the same operation executed first with empty pools; loaded scripts are shared across all histories.",
   note="Assumes pools and loaded syntax trees are the only state surviving an operation (package-level variables are covered by C16's shared-state hash). Real sync.Pool may also drop objects at GC, which is the 'fresh' answer.",
   tech="explicit-state search over operation histories with exhaustively enumerated pool answers (deviation-bounded) on the real code"),
  "C16": dict(cat="model_checking", design="6 C16",
-  text="(1) Shared-write freedom, exhaustive over the operation alphabet: the deep hash of the loaded scripts and of every package-level variable of the 9 repo packages must not change across any operation (first execution in a fresh process, alone, and in every ordered pair) unless it took a lock. (2) Controlled scheduler over the pool shim: all 28 pairs with <=2 preemptions and all 84 triples with <=1 (thorough 3/2) at every pool/lock operation, about 20000 schedules quick; per schedule: results equal the alone-run, no panic/deadlock, pool ownership discipline, shared hash unchanged. (3) A separate free-running -race pass over all pairs, triples and 8/16-thread fan-outs, explicitly non-exhaustive.",
+  text="(1) Shared-write freedom, exhaustive over the operation alphabet: the deep hash of the loaded scripts and of every package-level variable of the 9 repo packages must not change across any operation (first execution in a fresh process, alone, and in every ordered pair) unless it took a lock. (2) Controlled scheduler over the pool shim: all 55 pairs with <=2 preemptions and all 220 triples with <=1 (thorough 3/2) at every pool/lock/atomic operation and once more right after every Pool.Put (what a caller does with an object it has released is a segment of its own), about 127000 schedules quick; per schedule: results equal the alone-run, no panic/deadlock, pool ownership discipline, shared hash unchanged. (3) A separate free-running -race pass over all pairs, triples and 8/16-thread fan-outs, explicitly non-exhaustive.",
   note="Data-race freedom in the memory-model sense leans on (1) plus the race-detector pass; (1) cannot see a store that writes the value already there after the first execution. Scheduling points are pool/lock operations only, justified by (1).",
   tech="stateless exploration under a cooperative scheduler (preemption-bounded DFS) + exhaustive shared-state invariant; complementary race-detector sampling"),
  "C09": dict(cat="model_checking", design="6 C09",
-  text="All script sets of 1..3 scripts over 33 variants each (valid with <=2 ordered use targets incl. a missing name, unparsable, check-failing) under ALL parse orders x ALL link orders of the loader's two map iterations, and 4-script sets (<=1 use each quick, all 33^4 thorough) under all 24 link orders — 1.5 million fresh ParseScript runs in the quick tier. The real driver is used unchanged except that its two range statements iterate a harness-chosen order (build-time overlay generated from the current sources). Verdicts must equal graph reachability (hence be order-independent), use calls must be bound to the accepted script objects, and error chains must be root cause + call sites with every entry inside the file it names. The unmodified map order is run 8x on a third of the 3-script sets to tie the seam to the real driver.",
+  text="All script sets of 1..3 scripts over 37 variants each (valid with <=2 ordered use targets incl. a missing name, unparsable, check-failing) under ALL parse orders x ALL link orders of the loader's two map iterations, and 4-script sets (<=1 use each quick, all 37^4 thorough) under all 24 link orders — 6.8 million fresh ParseScript runs in the quick tier. The real driver is used unchanged except that its two range statements iterate a harness-chosen order (build-time overlay generated from the current sources). Verdicts must equal graph reachability (hence be order-independent), use calls must be bound to the accepted script objects, and error chains must be root cause + call sites with every entry inside the file it names. The unmodified map order is run 8x on a third of the 3-script sets to tie the seam to the real driver. Script names that are arbitrary strings (empty, per-cent signs, blanks, dots, non-ASCII) are run in pairs, cycles and self-uses.",
   note="If the overlay pattern no longer matches (refactored loader) the check says so and reports exhaustive:false. Names are opaque to the linker except through map order, which is controlled.",
   tech="exhaustive enumeration of configurations x visit orders (controlled map iteration through a build overlay) on the real loader vs graph-reachability reference"),
  "C11": dict(cat="model_checking", design="6 C11",
-  text="45 call templates of the 15 field-manipulating builtins x 5 key spellings x 6 subject situations (variable / field / tag / variable shadowing either / absent) x 13 subject values x 3 base points are run on the real engine and on reference builtins; the WHOLE canonical final point (so every other key is checked untouched), captured standard output, return values and read-backs and the error flag must agree. Complete product, about 39000 executions.",
+  text="54 call templates of the 15 field-manipulating builtins x 6 key spellings x 11 subject situations (variable / field / tag / variable shadowing either / absent / five in which a variable of that name has ceased to exist) x 33 subject values x 3 base points are run on the real engine and on reference builtins; the WHOLE canonical final point (so every other key is checked untouched), captured standard output, return values and read-backs and the error flag must agree. Complete product, about 260000 executions.",
   note="strings, regexp, net/url, fmt, encoding/json and spf13/cast are shared trusted base. Unspecified cells (cast of collections or non-numeric strings, rename onto an existing key, ...) are skipped and counted.",
   tech="bounded-exhaustive enumeration of builtin call shapes x subject situations x values on the real engine vs reference builtins"),
  "C12": dict(cat="model_checking", design="6 C12",
@@ -24,19 +24,19 @@ CLAIMS = {
   note="The engines (grok, xmlquery, dateparse, time, obfuscate) are trusted. Zone labels are checked against fixed offsets only where the zone has no DST ambiguity at the test date.",
   tech="bounded-exhaustive enumeration of pattern placements / inputs on the real engine vs reference plumbing around trusted engines"),
  "C20": dict(cat="model_checking", design="6 C20",
-  text="Every script of <=2 (thorough <=3) statements over 16 statement kinds x 5 inputs x {workspace, single file} x {json, lineprotocol} x {run, check-only} is executed through the real binary built from the current tree; stdout is parsed back and compared field by field with the same script and input run through the library API; errors must be reported without an output block. Quick: every script with a rotating 1/13 of the grid (about 630 invocations); thorough: the full grid.",
+  text="Every script of <=2 (thorough <=3) statements over 26 statement kinds x 15 inputs x {workspace, single file} x {json, lineprotocol} x {run, check-only} is executed through the real binary built from the current tree; stdout is parsed back and compared field by field with the same script and input run through the library API; errors must be reported without an output block. Quick: every script with a rotating 1/23 of the grid (about 2700 invocations); thorough: the full grid.",
   note="The influx line-protocol codec is trusted. Text input's default measurement name is pinned; wall-clock times are accepted within the invocation bracket.",
   tech="bounded-exhaustive enumeration of scripts x inputs x configurations through the real CLI binary vs the library API"),
  "C10": dict(cat="model_checking", design="6 C10",
-  text="Explicit-state breadth-first search over real input.Point values (including the private key index): 4 initial points x 113 builtin events (add, overwrite with 7 value kinds, move to tag, drop, rename over all ordered key pairs, cast, delete-on-set-measurement, default_time, grok captures) to depth 3 (quick) / 4 (thorough) with de-duplication, every transition executed by the real engine on a deep clone; in every one of ~134000 distinct states five invariants are evaluated (read-back of every output key through Point.Get and a script, tag/field exclusivity, field types, no phantom reads, droppable/renamable look-ahead) and the state is compared with a reference point model.",
+  text="Explicit-state breadth-first search over real input.Point values (including the private key index): 4 initial points x 146 builtin events (add, overwrite with 7 value kinds, move to tag, drop, rename over all ordered key pairs, cast, delete-on-set-measurement, default_time, grok captures) to depth 3 (quick) / 4 (thorough) with de-duplication, every transition executed by the real engine on a deep clone; in every one of ~247000 distinct states seven invariants are evaluated (read-back of every output key through Point.Get and a script, tag/field exclusivity, field types, no phantom reads, droppable/renamable look-ahead) and the state is compared with a reference point model.",
   note="De-duplication is per worker below level 1. The reference stops tracking after an unspecified cell (rename onto an existing key); the invariants are still checked there.",
   tech="explicit-state BFS over the real transition function with invariants in every state and a reference-model differential"),
  "C18": dict(cat="model_checking", design="6 C18",
-  text="On the real v2 interpreter with probe functions returning zero, one and two values: every one of 52 value positions x 7 no-value constructs x 10 preceding statements (a stale register is distinguishable by construction), every tuple assignment of up to 3 targets and sources, the whole C02 operator table and probed trees, the C04 slice table, index paths and aliasing sequences and every control-flow program of size <=3 are compared with the reference interpreter in its v2 dialect. About 2 million programs in the quick tier, enumerated completely.",
+  text="On the real v2 interpreter with probe functions returning zero, one and two values: every one of 52 value positions x 7 no-value constructs x 10 preceding statements (a stale register is distinguishable by construction), every tuple assignment of up to 3 targets and sources, the whole C02 operator table and probed trees, the C04 slice table, index paths and aliasing sequences and every control-flow program of size <=3 are compared with the reference interpreter in its v2 dialect; where the reference leaves a cell open, v2 must still coincide with v1 on the same program. About 2 million programs in the quick tier, enumerated completely.",
   note="Functions are assumed to declare their return values in FnDesc.Returns. v1 is not run side by side; both are compared against the same reference in their own checks.",
   tech="bounded-exhaustive program enumeration on the real v2 interpreter vs reference interpreter (v2 dialect)"),
  "C08": dict(cat="model_checking", design="6 C08",
-  text="89 syntactic positions (every slice bound in every form, every index level, both sides of all assignment kinds, every for clause, named/positional arguments at depth, map keys, deep blocks, ...) x 408 offenders (unknown function, every wrong arity 0..4 and every forbidden argument kind of each of 22 builtins) are loaded through the real check pass; v2 gets unknown functions and every unbindable call shape; break/continue in 12 placements on both passes; 44 reduced function tables. Rejected iff an offender is present, the first error position must lie inside the offender, and every valid call of every builtin must load in every position.",
+  text="107 syntactic positions (every slice bound in every form, every index level, both sides of all assignment kinds, every for clause, named/positional arguments at depth, map keys, deep blocks, ...) x 444 offenders (unknown function, every wrong arity 0..4 and every forbidden argument kind of each of 22 builtins) are loaded through the real check pass; v2 gets unknown functions and every unbindable call shape; break/continue in 12 placements on both passes; 44 reduced function tables. Rejected iff an offender is present, the first error position must lie inside the offender, and every valid call of every builtin must load in every position.",
   note="The per-builtin rules come from a reference table written from the function documentation and checkers (DESIGN.md appendix A). One offender per program.",
   tech="bounded-exhaustive enumeration of (syntactic position x offender x function table) on the real loaders with a rejected-iff-offender oracle"),
  "C05": dict(cat="model_checking", design="6 C05",
@@ -68,7 +68,7 @@ CLAIMS = {
   note="Horizon 40 (quick) / 200 (thorough) polls for non-terminating programs. A run that does not return 20 s after being told to stop is re-run and then reported (the only wall-clock decision).",
   tech="exhaustive fault-point enumeration (every poll index of the cancellation signal; every pair of suspension point of one run and signal point of a second run) on the real interpreters with a prefix oracle"),
  "C01": dict(cat="model_checking", design="6 C01",
-  text="About 5 million load-accepted programs (every expression form x 25 syntactic roles, every builtin x every argument list its real checker accepts) are each run on 4 input points on the real interpreter with panics recovered and fatal worker deaths detected; the oracle is exactly the property: control returns, with success or an error that names the script and carries a position. The enumeration is complete for the stated alphabet, so a crashing cell of the (form, operand type, point) space cannot be missed.",
+  text="About 7 million load-accepted programs (every expression form x 25 syntactic roles, every builtin x every argument list its real checker accepts) are each run on 4 input points on the real interpreter with panics recovered and fatal worker deaths detected; the oracle is exactly the property: control returns, with success or an error that names the script and carries a position. The enumeration is complete for the stated alphabet, so a crashing cell of the (form, operand type, point) space cannot be missed.",
   note="Alphabet: 31 atoms, 14 index keys, 14 slice bounds, 55 argument candidates; deeper nesting only in the thorough tier. Go runtime fatal errors are detected by worker death, not recovered.",
   tech="bounded-exhaustive program x input enumeration on the real interpreter with a crash oracle"),
  "C04": dict(cat="model_checking", design="6 C04",
@@ -76,7 +76,7 @@ CLAIMS = {
   note="Strings are ASCII in the exact table; non-ASCII strings use a byte-or-rune disjunctive oracle. encoding/json is trusted for snapshot text.",
   tech="bounded-exhaustive program enumeration on the real interpreter vs reference interpreter (differential, complete within bound)"),
  "C19": dict(cat="model_checking", design="6 C19",
-  text="Complete enumeration (not sampling) of all 111151 parameter lists of length 0..4 and of all 325 valid lists x 9331 call shapes through the real CheckFnParamDef / ParseV2 / Run, each compared with a 60-line reference binder; this is exactly the quantifier of the property, so within that alphabet the result is a full decision.",
+  text="Complete enumeration (not sampling) of all 194481 parameter lists of length 0..4 and of all 325 valid lists x 9331 call shapes (shapes of <=3 arguments also nested in 5 expression and 19 statement contexts) through the real CheckFnParamDef / ParseV2 / Run, each compared with a 60-line reference binder; this is exactly the quantifier of the property, so within that alphabet the result is a full decision.",
   note="Trusts the Go toolchain; assumes a function's checker calls CheckPassParam and its body uses GetParam*. Names outside {a,b,c,e,1x,\"\",zz} and lists longer than 4 are not covered.",
   tech="bounded-exhaustive enumeration of configurations x call shapes on the real code vs reference binder (explicit-state, complete within bound)"),
  "C02": dict(cat="model_checking", design="6 C02",
